@@ -308,12 +308,8 @@ fn from_str_with_options_impl<'de, T>(input: &'de str, options: Options) -> Resu
 where
     T: serde::de::Deserialize<'de>,
 {
-    // Normalize: ignore a single leading UTF-8 BOM if present.
-    let input = if let Some(rest) = input.strip_prefix('\u{FEFF}') {
-        rest
-    } else {
-        input
-    };
+    // A single leading UTF-8 BOM is ignored: `LiveEvents::from_str` strips it (exactly once, as
+    // the reader path does), and snippet rendering strips it from the text it is given.
 
     let with_snippet = options.with_snippet;
     let crop_radius = options.crop_radius;
@@ -414,12 +410,8 @@ fn from_str_with_options_and_path_recorder<T: DeserializeOwned>(
     input: &str,
     options: Options,
 ) -> Result<(T, crate::path_map::PathRecorder), Error> {
-    // Normalize: ignore a single leading UTF-8 BOM if present.
-    let input = if let Some(rest) = input.strip_prefix('\u{FEFF}') {
-        rest
-    } else {
-        input
-    };
+    // A single leading UTF-8 BOM is ignored: `LiveEvents::from_str` strips it (exactly once, as
+    // the reader path does), and snippet rendering strips it from the text it is given.
 
     let with_snippet = options.with_snippet;
     let crop_radius = options.crop_radius;
@@ -1364,12 +1356,8 @@ pub fn from_multiple_with_options<T: DeserializeOwned>(
     input: &str,
     options: Options,
 ) -> Result<Vec<T>, Error> {
-    // Normalize: ignore a single leading UTF-8 BOM if present.
-    let input = if let Some(rest) = input.strip_prefix('\u{FEFF}') {
-        rest
-    } else {
-        input
-    };
+    // A single leading UTF-8 BOM is ignored: `LiveEvents::from_str` strips it (exactly once, as
+    // the reader path does), and snippet rendering strips it from the text it is given.
     let with_snippet = options.with_snippet;
     let crop_radius = options.crop_radius;
 
